@@ -41,12 +41,15 @@ class Case:
     tier: str = "quick"
     events: str = "uniform"  # uniform | lowpair:i,j (pair mass in the lowest 12 % of its range: fast resonance and daughters)
     rtol: float = RTOL
+    opts: tuple = ()  # non-default builder options: "stable" (all final-state masses fixed), "scalar" (initial mass fixed),
+    #                   "couplings" (use_helicity_couplings)
 
     @property
     def id(self) -> str:
         k = "+".join(self.keep) if self.keep else "all"
         ev = "" if self.events == "uniform" else f"/{self.events}"
-        return f"{self.reaction}[{k}]/{self.alignment}{ev}"
+        op = "" if not self.opts else "/" + "+".join(self.opts)
+        return f"{self.reaction}[{k}]/{self.alignment}{ev}{op}"
 
 
 RHO = "jpsi_pi0_pip_pim_rho"
@@ -57,6 +60,10 @@ CASES = [
     # family has a light fast resonance and daughter, so that Wigner rotations beyond 90 degrees occur
     Case(SYN, (), "axis", events="lowpair:0,1", rtol=1e-7),
     Case(SYN, (), "axis", rtol=1e-7),
+    # the spin-1 particle at final-state id 2 (spectator in (01)2, below S1 in (02)1) and a spin-0 parent
+    Case("synthetic_J1_spin_at_2", (), "axis", events="lowpair:0,2", rtol=1e-7),
+    Case("synthetic_J0_spin_at_1", (), "axis", events="lowpair:0,1", rtol=1e-7),
+    Case("synthetic_J0_spin_at_2", (), "axis", events="lowpair:0,2", rtol=1e-7),
     Case("jpsi_gamma_pi0_pi0"),
     Case(RHO, ("rho(770)+", "rho(770)-")),
     Case(RHO),
@@ -93,6 +100,18 @@ CASES = [
     Case(LC, ("Lambda(1520)",), "dpd1", tier="thorough"),
     Case(LC, ("K*(892)0",), "dpd3", tier="thorough"),
     Case(LC, ("Lambda(1520)", "Delta(1232)++"), "dpd1", tier="thorough"),
+    Case("synthetic_J1_spin_at_0", (), "axis", tier="thorough", events="lowpair:0,1", rtol=1e-7),
+    Case("synthetic_J1_spin_at_0", (), "axis", tier="thorough", rtol=1e-7),
+    Case("synthetic_J1_spin_at_2", (), "axis", tier="thorough", rtol=1e-7),
+    Case("synthetic_J2_spin_at_1", (), "axis", tier="thorough", events="lowpair:0,1", rtol=1e-7),
+    Case("synthetic_J2_spin_at_2", (), "axis", tier="thorough", events="lowpair:0,2", rtol=1e-7),
+    Case("synthetic_J2_spin_at_2", (), "none", tier="thorough"),  # out of domain (spinful, unaligned): recorded only
+    Case("synthetic_four_body", (), "axis", tier="thorough", rtol=1e-8),
+    Case("jpsi_pi0_pi0_gamma", tier="thorough"),
+    Case("jpsi_pi0_gamma_pi0", tier="thorough"),
+    Case(RHO, ("rho(770)+", "rho(770)-"), tier="thorough", opts=("stable", "scalar")),
+    Case(RHO, ("rho(770)+", "rho(770)-"), "axis", tier="thorough", opts=("stable", "scalar", "couplings")),
+    Case(RHO, ("rho(770)+", "rho(770)-"), tier="thorough", opts=("couplings",)),
     Case("jpsi_pip_omega_pim", (), "axis", tier="thorough"),
     Case("jpsi_pip_omega_pim", ("b(1)(1235)+",), "axis", tier="thorough"),
     Case(SYN, ("R1",), "axis", tier="thorough", events="lowpair:0,1", rtol=1e-7),
@@ -338,6 +357,12 @@ def build(case: Case) -> Built:
             from ampform.helicity.align.axisangle import AxisAngleAlignment
 
             builder.config.spin_alignment = AxisAngleAlignment()
+    if "stable" in case.opts:
+        builder.config.stable_final_state_ids = set(reaction.final_state)
+    if "scalar" in case.opts:
+        builder.config.scalar_initial_state_mass = True
+    if "couplings" in case.opts:
+        builder.config.use_helicity_couplings = True
     model = builder.formulate()
     expr = unfold(model.expression)
     pars = list(model.parameter_defaults)
@@ -471,6 +496,61 @@ def _sign_flip_explains(b: Built, pv, ev2, I1, bad) -> bool:
     return bool(explained.all())
 
 
+def _degenerate_events(b: Built, g, pair, n, kind, eps=0.0):
+    """Three-body events on/near the sets the theorems exclude: the pair's momentum along +-z (`+z`, `-z`),
+    at angle eps to z (`near`), a daughter exactly along the pair's flight direction (`daughter`), the pair at
+    rest in the parent frame (`rest`)."""
+    i, j = pair
+    (k,) = [x for x in range(3) if x not in pair]
+    m, M = b.masses, b.M
+    lo, hi = m[i] + m[j], M - m[k]
+    mx = np.full(n, hi) if kind == "rest" else lo + (hi - lo) * g.uniform(0.2, 0.8, n)
+    q = _two_body(M, mx, m[k])
+    if kind in ("+z", "-z", "near"):
+        d = np.tile(np.array([math.sin(eps), 0.0, (-1.0 if kind == "-z" else 1.0) * math.cos(eps)]), (n, 1))
+    else:
+        d = _iso(g, n)
+    px = np.concatenate([np.sqrt(mx ** 2 + q * q)[:, None], q[:, None] * d], axis=1)
+    pk = np.concatenate([np.sqrt(m[k] ** 2 + q * q)[:, None], -q[:, None] * d], axis=1)
+    r = _two_body(mx, m[i], m[j])
+    e = d.copy() if kind == "daughter" else _iso(g, n)
+    pi = np.concatenate([np.sqrt(m[i] ** 2 + r * r)[:, None], r[:, None] * e], axis=1)
+    pj = np.concatenate([np.sqrt(m[j] ** 2 + r * r)[:, None], -r[:, None] * e], axis=1)
+    out = [None, None, None]
+    out[k] = pk
+    out[i], out[j] = (pi, pj) if kind == "rest" else (_boost(pi, px), _boost(pj, px))
+    return out
+
+
+DEGENERATE_FAMILIES = [("near", 1e-3), ("near", 1e-6), ("near", 1e-9), ("+z", 0.0), ("-z", 0.0), ("daughter", 0.0),
+                       ("rest", 0.0)]
+
+
+def degenerate_probe(b: Built, g, pair=(0, 1), n: int = 8) -> list[dict]:
+    """What the real code returns on/near the degenerate sets (condition-aware). `near` families are
+    judged with the tolerance max(rtol, 1e-14/eps) (Phi of a vector at angle eps to the axis has
+    condition number 1/eps); the exactly degenerate families are only recorded."""
+    out = []
+    pv = parameter_values(b, g)
+    for kind, eps in DEGENERATE_FAMILIES:
+        ev = _degenerate_events(b, g, pair, n, kind, eps)
+        R = random_rotations(g, n + 4)[4:]  # Haar-random only
+        I1 = intensity(b, pv, ev)
+        I2 = intensity(b, pv, rotate(ev, R))
+        fin = np.isfinite(I1) & np.isfinite(I2)
+        sc = np.maximum(np.abs(I1), np.abs(I2))
+        okk = fin & (sc > 0)
+        rel = np.abs(I1 - I2)[okk] / sc[okk]
+        rec = {"family": kind, "eps": eps, "events": n, "finite_unrotated": int(np.isfinite(I1).sum()),
+               "finite_rotated": int(np.isfinite(I2).sum()), "worst_relative_change": float(rel.max()) if rel.size else None,
+               "gating": kind == "near"}
+        if kind == "near":
+            rec["tolerance"] = max(b.case.rtol, 1e-14 / eps)
+            rec["ok"] = bool(fin.all() and (rel.size == 0 or rel.max() <= rec["tolerance"]))
+        out.append(rec)
+    return out
+
+
 def classify(b: Built, res: dict | None = None) -> dict:
     """Signature of a failing case (for the known-findings matcher)."""
     multi = b.n_topologies >= 2
@@ -488,7 +568,7 @@ def classify(b: Built, res: dict | None = None) -> dict:
 def replay_single(rep: dict) -> dict:
     """Re-evaluates one stored failing event on the current source tree."""
     c = rep["case"]
-    case = Case(c["reaction"], tuple(c["keep"]), c["alignment"])
+    case = Case(c["reaction"], tuple(c["keep"]), c["alignment"], opts=tuple(c.get("opts", ())))
     b = build(case)
     ev = [np.array([rep["event"][str(k)]]) for k in b.ids]
     R = np.array([rep["rotation"]])
